@@ -639,8 +639,72 @@ func c10Relative(r *rt.Run) {
 	}
 }
 
+// c10Concurrent: several callers decode documents of the same kind at the same
+// time, interleaved at the instrumented loop heads and function entries and at
+// every stream read - and they do so FIRST in the run, so that in a cold-start
+// run whatever the library sets up on first use of a type is set up under this
+// schedule.  Afterwards each document is decoded alone: the results must agree.
+func c10Concurrent(r *rt.Run) {
+	t := r.T
+	entry := []string{"ParseDsc", "ParseChanges", "ParseControl", "ParseBinaryIndex", "ParseSourceIndex"}[t.Draw(5, "c10.conc.kind")]
+	n := 2 + t.Draw(2, "c10.conc.callers")
+	docs := make([][]byte, n)
+	for i := range docs {
+		if i > 0 && t.Bool(1, 2, "c10.conc.samedoc") {
+			docs[i] = docs[0]
+		} else {
+			docs[i] = c18Seed(t, r, entry)
+		}
+	}
+	sites := map[int]bool{}
+	sub := t.Sub("c10.conc.sites")
+	for i := 0; i < rt.TotalSites(); i++ {
+		if sub.Intn(2) == 0 {
+			sites[i] = true
+		}
+	}
+	r.SetYieldSites(sites)
+	r.Sticky = t.Draw(3, "sched.sticky")
+	together := make([]c18Result, n)
+	tasks := make([]*rt.Task, n)
+	for i := range docs {
+		i := i
+		rd := simio.NewFixedReader(r, fmt.Sprintf("doc%d", i), docs[i], []int{0, 1, 64}[t.Draw(3, "c10.conc.chunk")], false)
+		tasks[i] = r.Go(fmt.Sprintf("P%d", i), func() { together[i] = c18Invoke(entry, docs[i], rd) })
+	}
+	r.Sched()
+	r.SetYieldSites(nil)
+	r.Probe("same-kind-decoded-by-concurrent-callers-first-thing-in-the-run")
+	for i := range docs {
+		if taskTrouble(r, "C10", entry+"/concurrent-callers", tasks[i]) {
+			return
+		}
+	}
+	for i := range docs {
+		var alone c18Result
+		rd := simio.NewFixedReader(r, fmt.Sprintf("alone%d", i), docs[i], 0, false)
+		task := r.Solo("alone", func() { alone = c18Invoke(entry, docs[i], rd) })
+		if taskTrouble(r, "C10", entry+"/alone", task) {
+			return
+		}
+		if alone.Err != "" {
+			r.Violate("C10/parse-error", entry+"/generated-document", "%s\ndocument:\n%s", alone.Err, clip(string(docs[i]), 500))
+			return
+		}
+		if together[i].Value != alone.Value || together[i].Err != alone.Err {
+			r.Violate("C10/result-depends-on-concurrent-callers", entry, "caller %d of %d decoding at the same time got %s (err %q); the same document decoded alone afterwards gives %s", i, n, clip(together[i].Value, 300), together[i].Err, clip(alone.Value, 300))
+			return
+		}
+	}
+}
+
 func runC10(r *rt.Run, tier string) {
 	t := r.T
+	if t.Bool(1, 12, "c10.part-concurrent") {
+		r.Stats["part.concurrent-callers"]++
+		c10Concurrent(r)
+		return
+	}
 	if t.Bool(1, 12, "c10.part-relative") {
 		r.Stats["part.relative-names"]++
 		c10Relative(r)
@@ -680,14 +744,15 @@ func runC10(r *rt.Run, tier string) {
 func init() {
 	register(&Prop{
 		ID: "C10", Level: "exploration", Variant: "I", Design: "DESIGN.md §5 C10",
-		Rule:      "Each run draws a model of one document kind (.dsc, .changes, debian/control with 1..4 binaries, Packages with 1..5 stanzas, Sources with 1..4 stanzas), renders it with an independent renderer in the layout dpkg-dev/apt write (comma and space lists single-line or folded, uploaders with UTF-8 names, file lists as leading-newline blocks of 'hash size [section priority] name', dependency fields single-line or folded, unknown fields, comments and 1..2 separating blank lines in debian/control), and parses it through the typed entry point over a simulated stream wrapped in a caller bufio.Reader of 16, 64, 200, 4096 or 65536 bytes, or through the *File entry point on the simulated file system. One sixth of the runs inject EIO at byte k. Every typed field and derived accessor is compared with the model.",
+		Rule:      "Each run draws a model of one document kind (.dsc, .changes, debian/control with 1..4 binaries, Packages with 1..5 stanzas, Sources with 1..4 stanzas), renders it with an independent renderer in the layout dpkg-dev/apt write (comma and space lists single-line or folded, uploaders with UTF-8 names, file lists as leading-newline blocks of 'hash size [section priority] name', dependency fields single-line or folded, unknown fields, comments and 1..2 separating blank lines in debian/control), and parses it through the typed entry point over a simulated stream wrapped in a caller bufio.Reader of 16, 64, 200, 4096 or 65536 bytes, or through the *File entry point on the simulated file system. One sixth of the runs inject EIO at byte k. Every typed field and derived accessor is compared with the model. Further parts: relative names given to the *File entry points while the simulated process changes directory; 2..3 concurrent callers decoding documents of one kind first thing in the run - also in cold-start runs (one fresh process per run), where first-use initialisation inside the library happens under the run's schedule.",
 		Run:       runC10,
 		QuickRuns: 300000, QuickSecs: 40, ThoroughRuns: 4_000_000, ThoroughSecs: 900,
+		ColdQuick: 320, ColdThorough: 6400, ColdForce: map[string]int{"c10.part-concurrent": 11},
 		Components: map[string]interface{}{
 			"real_instrumented": []string{"pault.ag/go/debian/control (ParseDsc[File], ParseChanges[File], ParseControl[File], ParseBinaryIndex, ParseSourceIndex, struct tags, FileHash parsers, accessors)", "pault.ag/go/debian/dependency, version"},
 			"stub":              []string{"simio.Reader + caller bufio.Reader size knob", "verifsim/simos for the *File entry points"},
 		},
 		Assumptions: []string{"the .deb control file kind of this property is exercised by C14's check", "two-part architecture names are compared on OS and CPU only"},
 	})
-	propProbes["C10"] = []string{"relative-names-after-a-change-of-directory", "clearsigned-document", "several-document-kinds-in-one-run", "line-longer-than-4096-bytes", "caller-bufio-smaller-than-4096", "via-file-entry-point"}
+	propProbes["C10"] = []string{"same-kind-decoded-by-concurrent-callers-first-thing-in-the-run", "relative-names-after-a-change-of-directory", "clearsigned-document", "several-document-kinds-in-one-run", "line-longer-than-4096-bytes", "caller-bufio-smaller-than-4096", "via-file-entry-point"}
 }
